@@ -95,6 +95,50 @@ def run_case(close_raises, fail_submit, script):
         shutil.rmtree(wd, ignore_errors=True)
 
 
+def check_cancel():
+    """C17: cancel_many attempts the latest job of every selected target, whatever happens to the others"""
+    import itertools as it
+    from gwf.backends.base import TrackingBackend, BackendStatus
+    from gwf.backends.exceptions import BackendError
+    from gwf.core import Target
+    from gwf.plugins.cancel import cancel_many
+    problems = []
+    for listed in (("1",), (), ("1", "2", "3")):
+        for failing in ((), ("2",), ("1", "3")):
+            for order in it.permutations(("a", "b", "c", "d")):
+                wd = tempfile.mkdtemp(prefix="gwfverif-")
+                try:
+                    os.makedirs(os.path.join(wd, ".gwf", "logs"))
+                    json.dump({"a": "1", "b": "2", "c": "3"}, open(os.path.join(wd, ".gwf", "fake-backend-tracked.json"), "w"))
+                    ops = FakeOps()
+                    ops.get_job_states = lambda tracked, listed=listed: {j: BackendStatus.RUNNING for j in tracked if j in listed}
+
+                    def cancel_job(job_id, ops=ops, failing=failing):
+                        ops.cancelled.append(job_id)
+                        if job_id in failing:
+                            raise BackendError("cannot cancel")
+
+                    ops.cancel_job = cancel_job
+                    be = TrackingBackend(wd, name="fake", ops=ops)
+                    tg = [Target(name=n, inputs=[], outputs=[], options={}, working_dir=wd) for n in order]
+                    try:
+                        import io, contextlib
+                        with contextlib.redirect_stdout(io.StringIO()), contextlib.redirect_stderr(io.StringIO()):
+                            cancel_many(be, tg)
+                    except BaseException as e:
+                        problems.append(f"cancel {order} (scheduler lists {listed}, cancel fails for {failing}): "
+                                        f"cancel_many raised {type(e).__name__}: {e} after cancelling {ops.cancelled}")
+                        return problems
+                    want = [{"a": "1", "b": "2", "c": "3"}[n] for n in order if n != "d"]
+                    if ops.cancelled != want:
+                        problems.append(f"cancel {order} (scheduler lists {listed}, cancel fails for {failing}): "
+                                        f"scheduler was asked to cancel {ops.cancelled}, the selected targets' latest jobs are {want}")
+                        return problems
+                finally:
+                    shutil.rmtree(wd, ignore_errors=True)
+    return problems
+
+
 def search():
     tried = 0
     scripts = []
@@ -111,6 +155,15 @@ def search():
                     return {"ops.close raises": close_raises, "rejected submit calls": list(fail), "script": sc,
                             "problems": pr}, tried
     return None, tried
+
+
+def replay_cancel(eng, ob, model, seed):
+    pr = check_cancel()
+    if not pr:
+        return {"failed_on_real_code": False, "candidates_tried": 216,
+                "bound": "4 targets in every order x 3 sets of listed jobs x 3 sets of failing cancels"}
+    return {"failed_on_real_code": True, "input": {"scenario": pr[0].split(":")[0]}, "observed": pr, "candidates_tried": 216,
+            "witness_class": "cancel-many", "call": "gwf.plugins.cancel.cancel_many(TrackingBackend(fake ops), targets)"}
 
 
 def replay(eng, ob, model, seed):
